@@ -83,7 +83,7 @@ func (p Probe) req() scen.Req {
 
 func probeFor(v string) Probe {
 	return Probe{
-		Args:    [][2]string{{"a", v}, {"b", v}, {"ab", v}, {"c", "zz"}, {"p/q", v}, {"d", "v1"}},
+		Args:    [][2]string{{"a", v}, {"b", v}, {"ab", v}, {"c", "zz"}, {"p/q", v}, {"d", "v1"}, {"bc", v}},
 		Headers: [][2]string{{"x-a", v}, {"x-q", "v1"}},
 	}
 }
@@ -230,9 +230,6 @@ func compile(d Desc) (*compiled, error) {
 			return nil, bad("macro-out-of-model")
 		}
 	}
-	if c.meta.ID == 0 {
-		return nil, bad("missing-id")
-	}
 	if d.SecAction {
 		return c, nil
 	}
@@ -369,7 +366,7 @@ func expect(rules []Desc, probes []Probe) Sig {
 		if err != nil {
 			return Sig{Err: true, ErrMsg: "model: " + err.Error()}
 		}
-		if ids[c.meta.ID] {
+		if c.meta.ID != 0 && ids[c.meta.ID] {
 			return Sig{Err: true, ErrMsg: "model: duplicate id"}
 		}
 		ids[c.meta.ID] = true
@@ -513,7 +510,14 @@ func (r *refReader) line(l, dir string) error {
 		}
 		return nil
 	case "secaction":
-		al, err := refQuotedActions(rest)
+		var al []Action
+		var err error
+		if rest != "" && rest[0] != '"' && !strings.Contains(rest, " ") {
+			// an unquoted argument is one literal word
+			al, err = refActions(rest)
+		} else {
+			al, err = refQuotedActions(rest)
+		}
 		if err != nil {
 			return err
 		}
@@ -605,6 +609,19 @@ func refQuotedActions(s string) ([]Action, error) {
 
 func refActions(s string) ([]Action, error) {
 	var out []Action
+	quotes := 0
+	for i := 0; i < len(s); i++ {
+		if s[i] == '\\' {
+			i++
+			continue
+		}
+		if s[i] == '\'' {
+			quotes++
+		}
+	}
+	if quotes%2 == 1 {
+		return nil, bad("action-value-quote-not-closed")
+	}
 	i := 0
 	for {
 		// key
@@ -756,7 +773,7 @@ func refTargets(s string) ([]Target, error) {
 			} else {
 				t.Kind = kindPlain
 				k := j
-				for k < len(s) && s[k] != '|' && s[k] != '\'' {
+				for k < len(s) && s[k] != '|' && (s[k] != '\'' || !t.Quoted) {
 					if s[k] == '/' {
 						return nil, bad("slash-inside-plain-key")
 					}
